@@ -228,6 +228,13 @@ class TransformProfile(HeapProfile):
                 o = draw_reject(rng, s, h.kind, reg, methods, inplace, unm)
                 if o is not None:
                     return o
+        if h.kind == "F" and rng.random() < 0.06:
+            # a result derived from this field (it shares the field's mesh object): later in-place steps on either
+            # must not reach the other
+            st.stats.probe("derived_from_field")
+            return rng.choice([{"op": "F.getnorm", "on": s, "what": "norm", "out": out}, {"op": "F.comp", "on": s, "i": rng.randrange(3), "out": out}])
+        if h.kind in "RM" and "scale" in methods and rng.random() < 0.03:
+            return {"op": "scale_extreme", "on": s, "e": rng.choice([-60, -55, 60, 40, -30])}
         method = rng.choice(methods)
         if method == "translate":
             return draw_translate(rng, geo, s, m, inplace, out)
